@@ -46,6 +46,8 @@ def good_streams(ctx, rng, n):
     for _ in range(nframes):
       if proto == 'pickle':
         dps = [wiresys.gen_datapoint(rng) for _ in range(rng.randint(1, 3))]
+        if rng.random() < 0.25:
+          dps.insert(rng.randint(0, len(dps)), dps[0])      # the very same datapoint twice in one frame: delivered twice
         # every fourth pickle frame is what a Python 2 sender writes (names as byte strings)
         fr = wiresys.py2_pickle_frame(dps) if len(out) % 4 == 1 else wiresys.pickle_frame(dps, rng.randint(0, 5))
         if len(fr) - 4 > wiresys.PICKLE_MAX:
